@@ -125,6 +125,7 @@ func C07(c *Ctx) {
 		}
 		for i, s := range sites {
 			k := fmt.Sprintf("%s|site%d:%s", rm.M, i, siteName(c, s))
+			r.Require(w.Guarded(h, s, ownerMatcher(c, rm.M, "Owner", rm.IDField), 3), "A2.record-guards", "owner|"+k, pos(c, s), "a record is accepted only from the stored Owner of the registration named in the message", "reachable without the owner check")
 			r.Require(w.Guarded(h, s, exists, 3), "A2.record-guards", "registered|"+k, pos(c, s), "a record is accepted only for a registration that exists under msg."+rm.IDField, "reachable without the existence check")
 			if rm.M == "wrkchain" {
 				r.Require(w.Guarded(h, s, strict, 3), "A2.record-guards", "strictly-higher|"+k, pos(c, s), "a WRKChain record is accepted only when msg.Height > stored Lastblock of msg.WrkchainId (strict)", "reachable without the strict comparison")
